@@ -44,7 +44,7 @@ Proof.
 Qed.
 
 Lemma wire_of_labels_cons l ls : wire_of_labels (l :: ls) = N.of_nat (length l) :: l ++ wire_of_labels ls.
-Proof. unfold wire_of_labels. cbn [flat_map]. rewrite <- !app_assoc. reflexivity. Qed.
+Proof. unfold wire_of_labels, labels_flat. cbn [flat_map]. rewrite <- !app_assoc. reflexivity. Qed.
 
 Lemma wire_len_le p off bar low hops budget ls e :
   name_at p off bar low hops budget ls e -> length (wire_of_labels ls) <= budget.
@@ -72,7 +72,7 @@ Section S.
       assert (off < length p) by (apply nth_error_Some; congruence).
       rewrite slice_eq by (cbn; lia). replace (off + 1 + N.to_nat 0 - off) with 1 by (cbn; lia).
       rewrite (firstn_S_skipn p off 0%N 0 Hz). cbn [firstn].
-      replace (N.to_nat 0 =? 0) with true by reflexivity. cbn [cu_name cu_len cu_final cu_off wire_of_labels flat_map app length].
+      replace (N.to_nat 0 =? 0) with true by reflexivity. cbn [cu_name cu_len cu_final cu_off wire_of_labels labels_flat flat_map app length].
       f_equal. f_equal; [f_equal; cbn; lia|]. destruct fin; cbn; lia.
     - rewrite Hlen. rewrite (small_not_ptr len Hl63).
       rewrite slice_eq by lia. replace (off + 1 + N.to_nat len - off) with (S (N.to_nat len)) by lia.
